@@ -7,7 +7,7 @@ RULE = ("TLC enumerates every key list of length 1..MaxKeys over KeyCols (distin
         "(22 entries, ties, sizes 2/9/10/100, link counts 1/2/12); two runs per scenario (without / with ORDER BY); "
         "Judge_C05 checks permutation and pairwise key order with typed comparison from the world. "
         "Non-trivial = at least 3 rows and the unordered output is not already sorted. "
-        "The key lists of length <= 2 are also run over pseudo-random trees (WorldRnd; quick: 3000 sampled over 2 trees, thorough: 8 trees).")
+        "The key lists of length <= 2 are also run over pseudo-random trees (WorldRnd; quick: 3000 sampled over 2 trees, thorough: 40 000 sampled over 8 trees). Thorough runs a seeded sample of 300 000 of the 1.28 million enumerated key lists.")
 ASSUMPTIONS = ["lstat size/nlink/mtime as ground truth", "string order = code-point order (ASCII names)"]
 
 
@@ -15,10 +15,11 @@ def generators(tier, seed):
     if tier == "quick":
         return [dict(module="MC_C05", cfg="MC_C05_q", workers=4), dict(module="MC_C05", cfg="MC_C05_r", workers=4, limit=3000)]
     # (pseudo-random trees of WorldRnd next to the fixed world)
-    return [dict(module="MC_C05", cfg="MC_C05_t", workers=8), dict(module="MC_C05", cfg="MC_C05_rt", workers=8)]
+    # (1.28 million key lists x styles are enumerated; a seeded sample of them is run - the driver keeps every record in memory)
+    return [dict(module="MC_C05", cfg="MC_C05_t", workers=8, limit=300000), dict(module="MC_C05", cfg="MC_C05_rt", workers=8, limit=40000)]
 
 MANIFEST = dict(
     design_ref='DESIGN.md §5 C05',
     text="TLC enumerates key lists (length <= 2 quick / <= 3 thorough) x directions x select style (not selected / selected / positional) x WHERE over world W5 (ties, 9/10/100, link counts 1/2/12); the run with ORDER BY must be a permutation of the run without and pairwise ordered under Order.tla's typed key comparison (keys taken from the world, so they need not be selected).",
-    note='Trusted: TLC, Order/Eval, lstat values. One world of 22 entries; ASCII names (code-point order).',
+    note='Trusted: TLC, Order/Eval, lstat values. Thorough: seeded sample of 300 000 of the 1.28 million enumerated scenarios (memory). One world of 22 entries; ASCII names (code-point order).',
     technique='TLC key-list enumeration + paired replay + TLA+ judge')
